@@ -107,6 +107,24 @@ def check_cfg(ctx, fx, cfg):
         if key.startswith("dyn channel::TxFn<") or key.startswith("dyn channel::ForceTxFn<"):
             sites = [s.get("in") or s.get("param_of") for s in ent["sites"]]
             ctx.require(all(s in ctors for s in sites) and sites, "R05.6", "%s@%s" % (key, cfg), "a submit closure is created outside the channel constructors: %s" % [s for s in sites if s not in ctors], site=ent["sites"][0]["loc"] if ent["sites"] else None, detail=sites)
+    # R05.9 closed list of crate types whose values keep an actor alive
+    HOLDERS = {
+        "addr::Addr": "strong handle kind", "addr::OwningAddr": "strong handle kind", "addr::sender::Sender": "strong handle kind", "addr::caller::Caller": "strong handle kind",
+        "channel::Channel": "construction: the two submit closures before they are split up",
+        "environment::Environment": "construction: holds the first Addr until create_loop hands it out",
+        "actor::builder::ActorBuilderWithChannel": "construction: holds the Channel until a terminal spawns",
+        "actor::builder::StreamActorBuilder": "construction: holds the Channel until a terminal spawns",
+        "context::Context": "child table only (R05.1)",
+    }
+    for o in fx.owns:
+        if o["kind"] != "adt":
+            continue
+        ka = own.keepalive_atoms(o["atoms"])
+        if ka and o["def"] not in HOLDERS:
+            c, p_, a = ka[0]
+            ctx.viol("R05.9", "holder:%s@%s" % (o["def"], cfg), "a type outside the closed list holds a strong handle (its values keep actors alive): %s via %s" % (a["ty"][:80], a["paths"][0][:120]), fn=o["def"], site=fx.adts[o["def"]]["loc"] if o["def"] in fx.adts else None)
+        elif ka:
+            ctx.ok("R05.9", "holder:%s@%s" % (o["def"], cfg), fx.adts[o["def"]]["loc"] if o["def"] in fx.adts else None, HOLDERS[o["def"]])
     # R05.7 closed mailbox -> graceful exit
     run_loops(ctx, fx, "R05.7", {"L9", "L11", "L4", "L13"})
     # R05.8 every strong kind owns a mailbox sender
